@@ -237,6 +237,43 @@ def wellformed(rng):
         return e, layout(rng, toks)
 
 
+def near_valid(rng):
+    """a well-formed election with exactly one acceptance condition broken; every such file must be rejected"""
+    while True:
+        e = abstract_election(rng)
+        if any(w.endswith('"') for nm in e['names'] + [e['title'], e['source'] or '', e['comment'] or ''] for w in nm.split(' ')):
+            continue
+        n = e['n']; elig = [c for c in range(1, n + 1) if c not in e['wd']]
+        kind = rng.choice(['seats>eligible', 'seats>eligible', 'seats=0', 'ballots<eligible', 'repeat', 'out-of-range'])
+        e = dict(e); e['lines'] = list(e['lines'])
+        if kind == 'seats>eligible':
+            if len(elig) == n:
+                e['s'] = n + rng.randint(1, 2)
+            else:
+                e['s'] = rng.randint(len(elig) + 1, n)      # within the candidate count, beyond the eligible ones
+        elif kind == 'seats=0':
+            e['s'] = 0
+        elif kind == 'ballots<eligible':
+            if len(elig) < 2 or e['use_ids']:
+                continue
+            e['lines'] = [(1, [rng.choice(elig)])] * rng.randint(1, len(elig) - 1)
+        elif kind == 'repeat':
+            i = rng.randrange(len(e['lines'])); m, r = e['lines'][i]
+            flat = [c for g in r for c in (g if isinstance(g, list) else [g])]
+            live = [c for c in flat if c in elig]
+            if not live:
+                continue
+            e['lines'][i] = (m, list(r) + [rng.choice(live)])
+        else:
+            i = rng.randrange(len(e['lines'])); m, r = e['lines'][i]
+            e['lines'][i] = (m, list(r) + [n + rng.randint(1, 3)])
+        try:
+            toks = render_tokens(rng, e)
+        except Exception:
+            continue
+        return kind, layout(rng, toks)
+
+
 # =================================================================================================
 # malformed stream
 
@@ -353,13 +390,27 @@ def C15(run):
                 run.violation(dict(kind='implementation', what='accepted profile violates: %s' % inv, text=t, implementation=c))
         if c != m:
             ncorr += 1; firstc = firstc or (t, c, m)
+    # one acceptance condition broken: every such file must be rejected (last sentence of C15)
+    nv = [near_valid(rng) for _ in range(budget(run, 3000, 60000))]
+    out2, stats2 = parse_campaign(run, [(t, False) for k, t in nv])
+    nvk = collections.Counter()
+    for (k, _), (t, vp, c, inv, ctor, m, want) in zip(nv, out2):
+        nvk[k] += 1
+        if c != 'PE':
+            nfail += 1
+            if nfail <= 3:
+                run.violation(dict(kind='implementation', what='a file with %s is not rejected with the profile error' % k,
+                                   text=t, implementation=c, invariants_violated=inv, model=m))
+        if c != m:
+            ncorr += 1; firstc = firstc or (t, c, m)
     if ncorr and not nfail:
         run.violation(dict(kind='correspondence', broken=['correspondence PARSE (lean/DroopModel/Blt.lean vs droop/profile.py)'],
                            text=firstc[0], implementation=firstc[1], model=firstc[2], disagreeing_cases=ncorr), 'no-failing-input-found')
     if broken and not run.violations:
         run.violation(dict(kind='theorem', broken=broken), 'no-failing-input-found')
     cov = run.coverage
-    cov['evaluations'] = len(out)
+    cov['near_valid_files_rejected'] = dict(nvk)
+    cov['evaluations'] = len(out) + len(out2)
     cov['distinct_nontrivial'] = len({t for (t, vp, c, inv, ctor, m, want) in out if c.startswith('OK') and (';' in c)})
     cov['traces_validated_against_impl'] = len(out) - ncorr
     cov['rule'] = ('abstract elections (options, -n and [withdrawn], nicknames, ballot ids, equal ranks, quoted multi-word names containing comment '
